@@ -300,7 +300,7 @@ func init() {
 		return res + " saved=" + r.savedTok()
 	}
 	register(&Prop{ID: "C10", Gen: genC10, Oracle: oracleC10,
-		Rule: "readhashes: every tree size N <= 40 (thorough 120), tile height h in {1,2,3} (thorough 1..5, plus sampled N < 3000 with h <= 8), every single stored-hash index honest, then sampled (index set, fault) pairs where the fault hits a tile that the honest read requests: flip one bit of one hash, swap / duplicate two hashes, truncate, extend, replace by the true tile of another coordinate, tile missing; one or two faults; index sets of size 0-4 including out-of-range indexes, N = 0, h = 0; tileforindex / newtiles / hashfromtile / readtiledata / tilepath / parsetilepath with valid, mutated, boundary (int64 overflow in N, W = 2^H, leading zeros, signs, data tiles) and random inputs; non-trivial = at least one fault on a tile that is actually read, or a well-formed input / one mutation from one; distinct by op line"})
+		Rule: "readhashes: every tree size N <= 40 (thorough 120), tile height h in {1,2,3} (thorough 1..5, plus sampled N < 1500 with h <= 8), every single stored-hash index honest, then sampled (index set, fault) pairs where the fault hits a tile that the honest read requests: flip one bit of one hash, swap / duplicate two hashes, truncate, extend, replace by the true tile of another coordinate, tile missing; one or two faults; index sets of size 0-4 including out-of-range indexes, N = 0, h = 0; tileforindex / newtiles / hashfromtile / readtiledata / tilepath / parsetilepath with valid, mutated, boundary (int64 overflow in N, W = 2^H, leading zeros, signs, data tiles) and random inputs; non-trivial = at least one fault on a tile that is actually read, or a well-formed input / one mutation from one; distinct by op line"})
 }
 
 // c10Honest returns the tiles an honest read of idx requests.
@@ -453,8 +453,8 @@ func genC10(g *Gen, n int) {
 	other := budget / 5
 	for budget > other {
 		c := cfgs[g.Intn(len(cfgs))]
-		if thorough && g.Chance(5) {
-			c = cfg{1 + g.Intn(3000), 1 + g.Intn(8)}
+		if thorough && g.Chance(1) {
+			c = cfg{1 + g.Intn(1500), 1 + g.Intn(8)} // the model rebuilds the whole store per op: keep these rare
 		}
 		seed := 1 + g.Intn(3)
 		l := c10Log(seed, c.n)
